@@ -135,7 +135,7 @@ def commit (s : Session) (bytes : Bytes) : Session := { s with reader := s.reade
 /-- The three resets at the top of `Session::connect`. -/
 def beginConnect (s : Session) : Session :=
   { s with reader := s.reader.reset, rt := s.rt.resetTransport,
-           data := { s.data with outbound := s.data.outbound.armReplay } }
+           data := { s.data with outbound := s.data.outbound.rearm } }
 
 /-- The `verif_set_next_packet_id` hook. -/
 def setPid (s : Session) (n : Nat) : Session := { s with data := { s.data with packetId := n } }
